@@ -45,6 +45,16 @@ def _chain(n):
     return None
 
 
+def _through_lysosome(c):
+    """`x.lysosome.ingest` -> 'ingest'; `self.lysosome._queue.append` -> '_queue' (what is reached on the lysosome)"""
+    if not c:
+        return None
+    for j, name in enumerate(c[:-1]):
+        if "lys" in name.lower():
+            return c[j + 1]
+    return None
+
+
 def sites(repo: Path):
     found = set()
     root = Path(repo) / "operon_ai"
@@ -63,14 +73,16 @@ def sites(repo: Path):
                 if isinstance(ch, (ast.ClassDef, ast.FunctionDef, ast.AsyncFunctionDef)):
                     q = (qual + "." if qual else "") + ch.name
                 if isinstance(ch, ast.Call) and isinstance(ch.func, ast.Attribute):
-                    c = _chain(ch.func)
-                    if c and len(c) >= 2 and "lys" in c[-2].lower():
-                        found.add((rel, qual or "<module>", c[-1]))
-                if isinstance(ch, (ast.Assign, ast.AugAssign, ast.AnnAssign)):
-                    for tg in (ch.targets if isinstance(ch, ast.Assign) else [ch.target]):
-                        c = _chain(tg) if isinstance(tg, ast.Attribute) else None
-                        if c and len(c) >= 2 and "lys" in c[-2].lower():
-                            found.add((rel, qual or "<module>", "set:" + c[-1]))
+                    hit = _through_lysosome(_chain(ch.func))
+                    if hit:
+                        found.add((rel, qual or "<module>", hit))
+                if isinstance(ch, (ast.Assign, ast.AugAssign, ast.AnnAssign, ast.Delete)):
+                    for tg in (ch.targets if isinstance(ch, (ast.Assign, ast.Delete)) else [ch.target]):
+                        while isinstance(tg, ast.Subscript):
+                            tg = tg.value
+                        hit = _through_lysosome(_chain(tg)) if isinstance(tg, ast.Attribute) else None
+                        if hit:
+                            found.add((rel, qual or "<module>", "set:" + hit))
                 walk(ch, q)
         walk(tree, "")
     return sorted(found)
